@@ -16,6 +16,7 @@
 -/
 import Cog.Sem.GoBuilderLemmas
 import Cog.Sem.GoBuilderValidate
+import Cog.Sem.PyBuilderLemmas
 import Cog.Props.C08
 namespace Cog.Sem.GB
 open Cog.IR Cog.Builder
@@ -555,3 +556,87 @@ example : ∃ vs, build wPlainCtx wPlainB { internal := .struct [("name", false,
     _ _ (by rfl) (by rfl)).2
 
 end Cog.Sem.GB
+
+/-! # Python
+
+  The Python templates check the constraints the builder IR attaches to an assignment at the
+  option call (`raise ValueError`); `build()` returns `self._internal` without validating; a
+  nested builder cannot fail at `build()`: what fails is the evaluation of the argument
+  expression, before the outer option is entered. -/
+namespace Cog.Sem.PB
+open Cog.IR Cog.Builder
+
+/-- **C09 (Python), `build()` never fails and validates nothing** -/
+theorem C09_py_build_total (st : PState) : build st = st.internal := rfl
+
+/-- **C09 (Python), a failing nested builder is reported by the option call**: when the
+    evaluation of an argument raised, the call raises that exception and no assignment runs
+    (arguments are evaluated left to right: the first one that raised) -/
+theorem C09_py_failing_nested_reported (c : Ctx) (o : Opt) (st : PState) :
+    ∀ (params : List Argument) (before : List PyVal) (exc : String) (after : List RArg),
+      o.args = params → params.length = before.length + 1 + after.length →
+      applyOption c o (before.map RArg.val ++ RArg.raised exc :: after) st = .raise exc := by
+  intro params before exc after hargs hlen
+  unfold applyOption
+  rw [hargs]
+  have : ∀ (ps : List Argument) (bs : List PyVal), ps.length = bs.length + 1 + after.length →
+      bindArgs ps (bs.map RArg.val ++ RArg.raised exc :: after) = .raise exc := by
+    intro ps bs
+    induction bs generalizing ps with
+    | nil =>
+      intro h
+      cases ps with
+      | nil => simp at h; omega
+      | cons p ps => simp [bindArgs]
+    | cons b bs ih =>
+      intro h
+      cases ps with
+      | nil => simp at h; omega
+      | cons p ps =>
+        simp only [List.map_cons, List.cons_append, bindArgs]
+        rw [ih ps (by simp at h ⊢; omega)]
+        rfl
+  rw [this params before hlen]
+  rfl
+
+/-- **C09 (Python), invalid reported**: if the first assignment of the option carries evaluable
+    constraints one of which the bound argument violates, the option call raises `ValueError`
+    (before anything is assigned) -/
+theorem C09_py_invalid_reported_partial (c : Ctx) (o : Opt) (args : List RArg) (st : PState) (env : Env)
+    (a : Assignment) (rest : List Assignment) (hbind : bindArgs o.args args = .ok env)
+    (hasg : o.assignments = a :: rest) (hev : ∀ k ∈ a.constraints, Evaluable env k)
+    (hviol : ∃ k ∈ a.constraints, Violated env k) :
+    applyOption c o args st = .raise "ValueError" := by
+  unfold applyOption
+  rw [hbind, hasg]
+  simp only [PRes.bind, applyAssignments, applyAssignment, checkConstraints_violated env a.constraints hev hviol]
+
+/-- an option that assigns one value directly to the attribute `m` (Python) -/
+def IsDirectOption (o : Opt) (a : Assignment) (it : PathItem) (m : String) : Prop :=
+  o.assignments = [a] ∧ a.path = [it] ∧ a.method = "direct" ∧ a.nilChecks = [] ∧
+  it.identifier = m ∧ m ≠ "" ∧ it.index = none ∧ it.root = false
+
+/-- **C09 (Python), valid never fails + sets exactly**: a direct option whose constraints the
+    bound argument satisfies, called on an object that has the attribute, returns; the attribute
+    holds the evaluated value and every other attribute is unchanged -/
+theorem C09_py_valid_never_fails_partial (c : Ctx) (o : Opt) (a : Assignment) (it : PathItem) (m : String)
+    (hd : IsDirectOption o a it m) (args : List RArg) (env : Env) (hbind : bindArgs o.args args = .ok env)
+    (hsat : ∀ k ∈ a.constraints, Evaluable env k ∧ ¬ Violated env k)
+    (x : PyVal) (hval : evalValue c env a.value = .ok x)
+    (attrs : Attrs) (old : PyVal) (hattr : getAttr m attrs = some old) :
+    ∃ attrs', applyOption c o args { internal := .obj attrs } = .ok { internal := .obj attrs' } ∧
+      getAttr m attrs' = some x ∧ ∀ n, n ≠ m → getAttr n attrs' = getAttr n attrs := by
+  obtain ⟨hasg, hpath, hmeth, hnc, hid, hne, hix, hroot⟩ := hd
+  obtain ⟨attrs', hupd⟩ := updAttr_present (x := x) hattr
+  obtain ⟨h1, h2⟩ := getAttr_updAttr_same hupd
+  refine ⟨attrs', ?_, h1, h2⟩
+  unfold applyOption
+  rw [hbind, hasg]
+  have hs : lvalue env a.path = .ok [.attr m] := by
+    simp [hpath, lvalue, stepsOf, hroot, hix, hid, hne, PRes.bind, PRes.map]
+  have hg : ∀ old', assignOp "direct" x old' = PRes.ok x := by intro o'; simp [assignOp]
+  simp only [PRes.bind, applyAssignments, applyAssignment, checkConstraints_satisfied env a.constraints hsat,
+    hnc, nilChecks, hval, hs, upd, hmeth, hg, hupd, PRes.map]
+
+end Cog.Sem.PB
+
